@@ -10,11 +10,11 @@ RULE = ("S-syn listings x rules nesting $or/$and/$and_any_order to depth 3 at in
         "start / hit windows. Non-trivial = model finds the rule or one mutation from a found case; distinct = (rule, listing).")
 FLOOR = {"quick": 300, "thorough": 4000}
 ANCHOR_HINTS = ["node_branch_root", "ast_builder", "pattern_node_builder", "deref_classes"]
-REQUIRED_EVENTS = ["hits_located", "law_cases_compared", "wide_any_order_cells"]
+REQUIRED_EVENTS = ["hits_located", "law_cases_compared", "wide_any_order_cells", "shared_list_cells"]
 
 
 def feat(rng):
-    return RG.Feat(operands=0.6, groups=0.55, ogroups=0.4, deref=0.5, max_depth=rng.choice([1, 2, 3]), max_odepth=rng.choice([1, 2, 3]),
+    return RG.Feat(operands=0.6, groups=0.55, ogroups=0.4, deref=0.5, icaps=0.12, ocaps=0.12, hexh=0.2, max_depth=rng.choice([1, 2, 3]), max_odepth=rng.choice([1, 2, 3]),
                    max_spine=rng.choice([1, 2, 3]))
 
 
@@ -288,12 +288,50 @@ def wide_any_order_stratum(ctx, d):
             ctx.event("wide_any_order_cells")
 
 
+def shared_list_stratum(ctx, d):
+    """One YAML list object (anchor and alias) used as the child list of an order-insensitive operator and of an order-sensitive one:
+    what `$or` / `$and_any_order` do with their children must not show in `$and` or in an operand list. Identical at every seed."""
+    from jv import dsl, listing as L
+    cases = []
+    for names in (["push", "mov"], ["pop", "call", "add"], ["mov", "lea"]):
+        for first in ("$or", "$and_any_order"):
+            cases.append(("inst", first, names))
+    for ops in (["%rsi", "%rax"], ["%rdx", "%rcx", "%rbx"]):
+        for first in ("$or", "$and_any_order"):
+            cases.append(("operand", first, ops))
+    for i, (level, first, names) in enumerate(cases):
+        if i % ctx.nshards != ctx.shard % max(1, min(len(cases), ctx.nshards)) or ctx.shard >= len(cases):
+            continue
+        shared = list(names)                       # ONE list object: the YAML dump writes it once and refers to it by alias
+        if level == "inst":
+            seq = list(reversed(names)) + names + sorted(names) + names
+            insts, addr = [], 0x401000
+            for m in seq + ["ret"]:
+                insts.append(L.SInst(addr, m, [], None, None, 1))
+                addr += 1
+            pattern = [{first: shared}, {"$and": shared}]
+        else:
+            insts = [L.SInst(0x401000, "lea", list(reversed(names)), None, None, 4), L.SInst(0x401004, "lea", list(names), None, None, 4),
+                     L.SInst(0x401008, "lea", sorted(names), None, None, 4), L.SInst(0x40100c, "lea", list(names), None, None, 4)]
+            pattern = [{"lea": [{first: shared}] if first == "$and_any_order" else [{first: shared}] + names[1:]}, {"lea": shared}]
+        prep = dsl.Prepared(d.ws, insts, ctx.rng)
+        ctx.ran()
+        if not prep.verify(d.ws):
+            continue
+        d.prep, d.style = prep, f"shared-list/{level}/{first[1:]}"
+        saved, d.alias_twin = d.alias_twin, 0.0      # the sharing is in the pattern itself
+        d.run_pattern(pattern, "base", True)
+        d.alias_twin = saved
+        ctx.event("shared_list_cells")
+
+
 def run_shard(ctx):
     d = drive.Driver(ctx, feat, flags="random", styles=("mixed", "runs", "dups"))
     d.loop(3000, 250000)
     nesting_stratum(ctx, d, ctx.share(180, 6000))
     law_stratum(ctx, d, ctx.share(480, 20000))
     wide_any_order_stratum(ctx, d)
+    shared_list_stratum(ctx, d)
 
 
 def replay(ctx, case):
